@@ -21,7 +21,7 @@ class Gen:
     """Builds one episode; keeps enough shadow state to produce mostly-valid ops."""
 
     def __init__(self, rng, strategy=None, passive=None, rl=False, cb=False, weights=None, nback=None,
-                 maxw=6, thr=None, eject_s=None, scramble=False):
+                 maxw=6, thr=None, eject_s=None, scramble=False, active=None):
         self.rng = rng
         self.scramble = scramble      # names whose append order is not their lexicographic order
         r = rng
@@ -40,9 +40,10 @@ class Gen:
             cbp = (0, 0, 0, 0, 0)
         self.cbp = cbp
         self.rlp = rlp
-        self.ops = ["lb new %s %d %d %d %d %d %d %d %d %d %d %d %d" % (
+        self.active = (r.random() < 0.3) if active is None else active
+        self.ops = ["lb new %s %d %d %d %d %d %d %d %d %d %d %d %d%s" % (
             self.strategy, 1 if self.passive else 0, self.thr, self.eject_s,
-            1 if rl else 0, rlp[0], rlp[1], 1 if cb else 0, cbp[0], cbp[1], cbp[2], cbp[3], cbp[4])]
+            1 if rl else 0, rlp[0], rlp[1], 1 if cb else 0, cbp[0], cbp[1], cbp[2], cbp[3], cbp[4], " act" if self.active else "")]
         self.t = 0
         self.tid = 0
         self.infl = []
@@ -88,7 +89,9 @@ class Gen:
         xff = r.choice(XFF) if xff is None else xff
         xri = r.choice(XRI) if xri is None else xri
         remote = r.choice(REMOTE) if remote is None else remote
-        self.ops.append("lb begin %d %d %s %s %s" % (self.tid, self.t, enc(xff), enc(xri), enc(remote)))
+        # now and then the request offers a protocol upgrade (which the backend declines)
+        upg = " upg" if r.random() < 0.06 else ""
+        self.ops.append("lb begin %d %d %s %s %s%s" % (self.tid, self.t, enc(xff), enc(xri), enc(remote), upg))
         self.infl.append(self.tid)
         return self.tid
 
